@@ -1144,3 +1144,156 @@ func recvNamedType(t types.Type) string {
 	}
 	return ""
 }
+
+// ---- AGREE-childset: the hash and the serialisation cover the same children -----------------
+
+// A branch's hash is computed over every child slot (an empty slot as the empty
+// state). A proof or an export carries the branch's serialisation, from which
+// the verifier recomputes that hash: the serialisation must therefore write
+// every child that is present. A Serialize that leaves out some present
+// children (e.g. weightless ones) produces honest proofs that verify to another
+// hash than the trie's root.
+//
+// Rule: in routingNode.Serialize the write of a child into the persisted child
+// list is conditional on nothing but the child's presence (its nil test) and
+// its kind (type assertions, which select the layout); any other condition that
+// depends on the child makes the written set a proper subset of the hashed set.
+func agreeChildSet(r *engine.Run, rule string) {
+	f, err := r.P.Func(pkgWMPT, "routingNode", "Serialize")
+	if !r.Anchor(rule, err) || len(f.Blocks) == 0 {
+		return
+	}
+	r.Touch(f)
+	// child values: Node loaded from an element of a Node array
+	isChild := func(v ssa.Value) bool {
+		if ix, ok := v.(*ssa.Index); ok {
+			return isNodeArray(ix.X)
+		}
+		arr, _, ok := loadOfIndex(v)
+		return ok && isNodeArray(arr)
+	}
+	var dependsOnChild func(v ssa.Value, depth int) bool
+	dependsOnChild = func(v ssa.Value, depth int) bool {
+		if v == nil || depth > 6 {
+			return false
+		}
+		if isChild(v) {
+			return true
+		}
+		switch x := v.(type) {
+		case *ssa.Call:
+			if x.Call.IsInvoke() && dependsOnChild(x.Call.Value, depth+1) {
+				return true
+			}
+			for _, a := range x.Call.Args {
+				if dependsOnChild(a, depth+1) {
+					return true
+				}
+			}
+		case *ssa.BinOp:
+			return dependsOnChild(x.X, depth+1) || dependsOnChild(x.Y, depth+1)
+		case *ssa.UnOp:
+			return dependsOnChild(x.X, depth+1)
+		case *ssa.Extract:
+			return dependsOnChild(x.Tuple, depth+1)
+		case *ssa.TypeAssert:
+			return dependsOnChild(x.X, depth+1)
+		case *ssa.Convert:
+			return dependsOnChild(x.X, depth+1)
+		case *ssa.FieldAddr:
+			return dependsOnChild(x.X, depth+1)
+		}
+		return false
+	}
+	n := 0
+	o := ord{}
+	engine.Instrs(f, func(in ssa.Instruction) {
+		st, ok := in.(*ssa.Store)
+		if !ok {
+			return
+		}
+		ia, ok := st.Addr.(*ssa.IndexAddr)
+		if !ok || !isByteSlice(st.Val.Type()) {
+			return
+		}
+		if _, isSl := ia.X.Type().Underlying().(*types.Slice); !isSl {
+			return
+		}
+		n++
+		extra := ""
+		if facts, ok := engine.FactsOn(f, st.Block()); ok {
+			for _, ft := range facts {
+				switch ft.Kind {
+				case "eq":
+					if (isChild(ft.A) && nilConst(ft.B)) || (isChild(ft.B) && nilConst(ft.A)) {
+						continue // presence
+					}
+				case "bool":
+					if ex, ok := ft.A.(*ssa.Extract); ok {
+						if _, isTA := ex.Tuple.(*ssa.TypeAssert); isTA {
+							continue // kind
+						}
+					}
+				}
+				if dependsOnChild(ft.A, 0) || dependsOnChild(ft.B, 0) {
+					extra = ft.Key
+				}
+			}
+		}
+		r.Check(extra == "", rule, o.next(fn(f)+"|child written"), r.P.Pos(st.Pos()), "a child is written whenever it is present (conditions: nil test and kind only)",
+			"the serialisation writes a child only under a further condition on the child ("+extra+"), while the branch's hash covers every present child: a branch with such a child serialises to bytes that do not hash back to the trie's root, so honest proofs and exports through it verify to another root")
+	})
+	if n < 1 {
+		r.Anchor(rule, fmt.Errorf("unresolved anchor: no store into the persisted child list in %s", fn(f)))
+	}
+}
+
+// ---- REF-shortref: a hash reference never stands for a shared-prefix node ---------------------
+
+// The weighted trie relies on one representation invariant for partial tries:
+// a hashNode in a branch slot stands for a branch or a value, never for a
+// shared-prefix node - those are embedded in the parent branch's serialisation
+// and stay shortNodes (with their value collapsed), so that a delete can merge
+// them without storage. A walk that replaces a shortNode by a hash reference of
+// the shortNode itself (commit at the collapse level) makes exports carry a bare
+// hash for that sibling and a later delete wraps the placeholder instead of
+// merging the keys: roots diverge from the full trie.
+//
+// Rule: no hashNode is built whose hash is taken from a value of static type
+// *shortNode (its Hash() / hash field) outside the Copy methods of the node
+// kinds (snapshots below their collapse level).
+func refShortRef(r *engine.Run, rule string) {
+	n := 0
+	for _, f := range funcsOfPkg(r, pkgWMPT) {
+		if len(f.Blocks) == 0 {
+			continue
+		}
+		o := ord{}
+		engine.Instrs(f, func(in ssa.Instruction) {
+			st, ok := in.(*ssa.Store)
+			if !ok {
+				return
+			}
+			fa, ok := st.Addr.(*ssa.FieldAddr)
+			if !ok || !isNamedPtr(fa.X.Type(), "hashNode") || engine.FieldOf(fa) == nil || engine.FieldOf(fa).Name() != "hash" {
+				return
+			}
+			n++
+			src := stripConv(st.Val)
+			from := ""
+			if c, ok := src.(*ssa.Call); ok && !c.Call.IsInvoke() {
+				if sc := c.Call.StaticCallee(); sc != nil && (sc.Name() == "Hash" || sc.Name() == "CalcHash") && len(c.Call.Args) == 1 && isNamedPtr(c.Call.Args[0].Type(), "shortNode") {
+					from = "its " + sc.Name() + "()"
+				}
+			}
+			if b, fld, ok := loadOfField(src); ok && fld == "hash" && isNamedPtr(b.Type(), "shortNode") {
+				from = "its hash field"
+			}
+			r.Check(from == "", rule, o.next(fn(f)+"|hash reference"), r.P.Pos(st.Pos()), "the reference stands for a branch, a value or an unknown kind, not for a shared-prefix node",
+				"a hash reference is built for a shared-prefix node itself (from "+from+"): such nodes are embedded in their parent branch and must stay shortNodes (with a collapsed value) so that a delete can merge them; as a bare hash the sibling is exported as a placeholder and a delete that reduces the branch wraps it instead of merging the keys, so the root differs from the full trie's")
+		})
+	}
+	if n < 4 {
+		r.Anchor(rule, fmt.Errorf("unresolved anchor: only %d hash references built in the weighted trie", n))
+	}
+}
